@@ -134,6 +134,14 @@ step(struct rp_h *h, const struct req *q, RPBlockAccess verdict, const char *ctx
                 vh_hex(SP.raw[0], SP.len[0] > 40 ? 40 : SP.len[0]));
         return;
     }
+    /* option bits of the reply as the transport section of the document mandates */
+    {
+        unsigned crcbits = r.options & (ROPT_HDCRC | ROPT_PLCRC);
+        unsigned want = h->serial ? (ROPT_HDCRC | (r.plen ? ROPT_PLCRC : 0u)) : 0u;
+        if (crcbits != want || (r.options & 8u))
+            vh_fail("response-option-bits", key, "%s: reply options %x, transport demands checksum bits %x", ctx,
+                    r.options, want);
+    }
     unsigned expcode = wsmismatch ? 1u : (unsigned)verdict.status;
     vh_countf("response: %s", rp_respname[expcode]);
     if (r.type != (unsigned)q->kind + 1 || r.seq != q->seq || r.addr != q->addr)
